@@ -76,6 +76,13 @@ var EniOptions = map[eniTypeKey]*aliyunClient.CreateNetworkInterfaceOptions{
 
 // releaseUnUsedIP toDel is the number of idle ip need to del
 func releaseUnUsedIP(log logr.Logger, eni *networkv1beta1.NetworkInterface, toDel int) int {
+	return releaseUnUsedIPDualStack(log, eni, toDel, false)
+}
+
+// releaseUnUsedIPDualStack dualStack: the idle ip are counted by ipv4 and a pod needs both families on one eni.
+// An idle ipv4 that can not be released (the primary ip) keeps its ipv6 partner: releasing the partner does
+// not lower the idle count and the pool would assign it again in the next reconcile.
+func releaseUnUsedIPDualStack(log logr.Logger, eni *networkv1beta1.NetworkInterface, toDel int, dualStack bool) int {
 	_, inUse := IPUsage(eni.IPv4)
 	_, inUseV6 := IPUsage(eni.IPv6)
 	// try delete eni, only if no one use it
@@ -107,6 +114,10 @@ func releaseUnUsedIP(log logr.Logger, eni *networkv1beta1.NetworkInterface, toDe
 			toDelIPv4--
 			releasedV4++
 		}
+	}
+
+	if dualStack && toDelIPv4 > 0 {
+		toDelIPv6 -= toDelIPv4
 	}
 
 	for _, v := range eni.IPv6 {
